@@ -42,7 +42,9 @@ CONSTANTS MaxStmts,     \* statements per policy block (nested ones count)
           MaxDepth,     \* nesting depth of if / match
           OpsMenu,      \* set of finish-block bodies (sequences of op records)
           RecallMenu,   \* set of recall blocks used when the policy block can recall
-          MatchArms     \* set of blocks allowed as match arms (keeps the enumeration finite and small)
+          MatchArms,    \* set of blocks allowed as match arms (keeps the enumeration finite and small)
+          Enumerate     \* TRUE: Init ranges over the set of all programs within the bounds;
+                        \* FALSE: programs are drawn by random derivation (MC module, tlc -simulate)
 
 VARIABLES prog          \* [policy |-> block, recall |-> block]
 
@@ -64,11 +66,12 @@ SizeS(s) == IF s.t = "if" THEN 1 + SizeB(s.a) + SizeB(s.b)
             ELSE 1
 SizeB(b) == IF b = <<>> THEN 0 ELSE SizeS(b[1]) + SizeB(Tail(b))
 
-(* if statements of size <= n whose branches come from Inner; `if c {} ..` is left out *)
-IfsOver(n, Inner) ==
+(* if statements of size <= n whose branches come from the inner levels lv (lv[m + 1] = the
+   inner blocks of size <= m); `if c {} ..` is left out *)
+IfsOver(n, lv) ==
   UNION {{[t |-> "if", c |-> c, a |-> a, b |-> b, els |-> b # <<>>] :
-             c \in BOOLEAN, b \in {y \in Inner : SizeB(y) <= n - 1 - SizeB(a)}} :
-          a \in {x \in Inner : x # <<>> /\ SizeB(x) <= n - 1}}
+             c \in BOOLEAN, b \in lv[n - 1 - SizeB(a) + 1]} :
+          a \in {x \in lv[n] : x # <<>>}}
 Matches(n) ==
   {m \in {[t |-> "match", n |-> k, arms |-> <<a0, a1, ad>>] :
              k \in 0..2, a0 \in MatchArms, a1 \in MatchArms, ad \in MatchArms} : SizeS(m) <= n}
@@ -83,24 +86,22 @@ Ext(n, St, prev) ==
    hence the guards that leave a level empty when the configuration does not need it):
    Ld_n = blocks of nesting depth <= d and size <= n.  Up to 4 statements, depth 2. *)
 L0_0 == {<<>>}
-L0_1 == IF (MaxDepth = 0 /\ MaxStmts >= 1) \/ (MaxDepth > 0 /\ MaxStmts > 1) THEN Ext(1, Simple, <<L0_0>>) ELSE {}
-L0_2 == IF (MaxDepth = 0 /\ MaxStmts >= 2) \/ (MaxDepth > 0 /\ MaxStmts > 2) THEN Ext(2, Simple, <<L0_0, L0_1>>) ELSE {}
-L0_3 == IF (MaxDepth = 0 /\ MaxStmts >= 3) \/ (MaxDepth > 0 /\ MaxStmts > 3) THEN Ext(3, Simple, <<L0_0, L0_1, L0_2>>) ELSE {}
-L0_4 == IF MaxDepth = 0 /\ MaxStmts >= 4 THEN Ext(4, Simple, <<L0_0, L0_1, L0_2, L0_3>>) ELSE {}
-Inner0 == CASE MaxStmts = 1 -> L0_0 [] MaxStmts = 2 -> L0_1 [] MaxStmts = 3 -> L0_2 [] OTHER -> L0_3
-St1(n) == Simple \cup IfsOver(n, Inner0) \cup Matches(n)
+L0_1 == IF Enumerate /\ ((MaxDepth = 0 /\ MaxStmts >= 1) \/ (MaxDepth > 0 /\ MaxStmts > 1)) THEN Ext(1, Simple, <<L0_0>>) ELSE {}
+L0_2 == IF Enumerate /\ ((MaxDepth = 0 /\ MaxStmts >= 2) \/ (MaxDepth > 0 /\ MaxStmts > 2)) THEN Ext(2, Simple, <<L0_0, L0_1>>) ELSE {}
+L0_3 == IF Enumerate /\ ((MaxDepth = 0 /\ MaxStmts >= 3) \/ (MaxDepth > 0 /\ MaxStmts > 3)) THEN Ext(3, Simple, <<L0_0, L0_1, L0_2>>) ELSE {}
+L0_4 == IF Enumerate /\ (MaxDepth = 0 /\ MaxStmts >= 4) THEN Ext(4, Simple, <<L0_0, L0_1, L0_2, L0_3>>) ELSE {}
+St1(n) == Simple \cup IfsOver(n, <<L0_0, L0_1, L0_2, L0_3>>) \cup Matches(n)
 L1_0 == {<<>>}
-L1_1 == IF (MaxDepth = 1 /\ MaxStmts >= 1) \/ (MaxDepth > 1 /\ MaxStmts > 1) THEN Ext(1, Simple, <<L1_0>>) ELSE {}
-L1_2 == IF (MaxDepth = 1 /\ MaxStmts >= 2) \/ (MaxDepth > 1 /\ MaxStmts > 2) THEN Ext(2, St1(2), <<L1_0, L1_1>>) ELSE {}
-L1_3 == IF (MaxDepth = 1 /\ MaxStmts >= 3) \/ (MaxDepth > 1 /\ MaxStmts > 3) THEN Ext(3, St1(3), <<L1_0, L1_1, L1_2>>) ELSE {}
-L1_4 == IF MaxDepth = 1 /\ MaxStmts >= 4 THEN Ext(4, St1(4), <<L1_0, L1_1, L1_2, L1_3>>) ELSE {}
-Inner1 == CASE MaxStmts = 1 -> L1_0 [] MaxStmts = 2 -> L1_1 [] MaxStmts = 3 -> L1_2 [] OTHER -> L1_3
-St2(n) == Simple \cup IfsOver(n, Inner1) \cup Matches(n)
+L1_1 == IF Enumerate /\ ((MaxDepth = 1 /\ MaxStmts >= 1) \/ (MaxDepth > 1 /\ MaxStmts > 1)) THEN Ext(1, Simple, <<L1_0>>) ELSE {}
+L1_2 == IF Enumerate /\ ((MaxDepth = 1 /\ MaxStmts >= 2) \/ (MaxDepth > 1 /\ MaxStmts > 2)) THEN Ext(2, St1(2), <<L1_0, L1_1>>) ELSE {}
+L1_3 == IF Enumerate /\ ((MaxDepth = 1 /\ MaxStmts >= 3) \/ (MaxDepth > 1 /\ MaxStmts > 3)) THEN Ext(3, St1(3), <<L1_0, L1_1, L1_2>>) ELSE {}
+L1_4 == IF Enumerate /\ (MaxDepth = 1 /\ MaxStmts >= 4) THEN Ext(4, St1(4), <<L1_0, L1_1, L1_2, L1_3>>) ELSE {}
+St2(n) == Simple \cup IfsOver(n, <<L1_0, L1_1, L1_2, L1_3>>) \cup Matches(n)
 L2_0 == {<<>>}
-L2_1 == IF (MaxDepth = 2 /\ MaxStmts >= 1) \/ (MaxDepth > 2 /\ MaxStmts > 1) THEN Ext(1, Simple, <<L2_0>>) ELSE {}
-L2_2 == IF (MaxDepth = 2 /\ MaxStmts >= 2) \/ (MaxDepth > 2 /\ MaxStmts > 2) THEN Ext(2, St2(2), <<L2_0, L2_1>>) ELSE {}
-L2_3 == IF (MaxDepth = 2 /\ MaxStmts >= 3) \/ (MaxDepth > 2 /\ MaxStmts > 3) THEN Ext(3, St2(3), <<L2_0, L2_1, L2_2>>) ELSE {}
-L2_4 == IF MaxDepth = 2 /\ MaxStmts >= 4 THEN Ext(4, St2(4), <<L2_0, L2_1, L2_2, L2_3>>) ELSE {}
+L2_1 == IF Enumerate /\ ((MaxDepth = 2 /\ MaxStmts >= 1) \/ (MaxDepth > 2 /\ MaxStmts > 1)) THEN Ext(1, Simple, <<L2_0>>) ELSE {}
+L2_2 == IF Enumerate /\ ((MaxDepth = 2 /\ MaxStmts >= 2) \/ (MaxDepth > 2 /\ MaxStmts > 2)) THEN Ext(2, St2(2), <<L2_0, L2_1>>) ELSE {}
+L2_3 == IF Enumerate /\ ((MaxDepth = 2 /\ MaxStmts >= 3) \/ (MaxDepth > 2 /\ MaxStmts > 3)) THEN Ext(3, St2(3), <<L2_0, L2_1, L2_2>>) ELSE {}
+L2_4 == IF Enumerate /\ (MaxDepth = 2 /\ MaxStmts >= 4) THEN Ext(4, St2(4), <<L2_0, L2_1, L2_2, L2_3>>) ELSE {}
 
 PolicyBlocks ==
   CASE MaxDepth = 0 -> (CASE MaxStmts = 1 -> L0_1 [] MaxStmts = 2 -> L0_2 [] MaxStmts = 3 -> L0_3 [] MaxStmts = 4 -> L0_4)
@@ -230,6 +231,22 @@ Apply(io, facts) ==
 InitFacts == {<<1, 1>>}
 
 ---------------------------------------------------------------------------------
+(* well-formedness: size and depth bounds, `finish` only as the last statement of a block,
+   recall statements only in the policy block *)
+RECURSIVE DepthB(_), WfB(_, _)
+DepthS(s) == IF s.t = "if" THEN 1 + (IF DepthB(s.a) > DepthB(s.b) THEN DepthB(s.a) ELSE DepthB(s.b))
+             ELSE IF s.t = "match" THEN 1 ELSE 0
+DepthB(b) == IF b = <<>> THEN 0
+             ELSE LET x == DepthS(b[1]) y == DepthB(Tail(b)) IN IF x > y THEN x ELSE y
+WfS(s, ctx) == CASE s.t = "if" -> WfB(s.a, ctx) /\ WfB(s.b, ctx) /\ (s.els <=> s.b # <<>>)
+                 [] s.t = "match" -> \A i \in 1..3 : WfB(s.arms[i], ctx)
+                 [] s.t = "recall" -> ctx = "policy"
+                 [] s.t = "check" -> s.e = "panic" \/ ctx = "policy"
+                 [] OTHER -> TRUE
+WfB(b, ctx) == \A i \in 1..Len(b) : WfS(b[i], ctx) /\ (b[i].t = "finish" => i = Len(b))
+WellFormed == /\ WfB(prog.policy, "policy") /\ WfB(prog.recall, "recall")
+              /\ SizeB(prog.policy) <= MaxStmts /\ DepthB(prog.policy) <= MaxDepth
+
 Init == prog \in Programs
 Next == UNCHANGED prog
 Spec == Init /\ [][Next]_prog
